@@ -18,9 +18,15 @@ pub fn run(ctx: &mut Ctx, prop: &str) {
     match prop {
         "C01" => c01(ctx),
         "C02" => mutation_run(ctx, "C02", Which::Statement),
-        "C03" => mutation_run(ctx, "C03", Which::Proof),
+        "C03" => {
+            mutation_run(ctx, "C03", Which::Proof);
+            real_setup_foreign_polynomial(ctx, "C03");
+        }
         "C10" => mutation_run(ctx, "C10", Which::All),
-        "C08" => c08(ctx),
+        "C08" => {
+            c08(ctx);
+            real_setup_foreign_polynomial(ctx, "C08");
+        }
         "C09" => c09(ctx),
         "C12" => c12(ctx),
         "C17" => c17(ctx),
@@ -844,3 +850,52 @@ fn c19(ctx: &mut Ctx) {
 
 #[allow(dead_code)]
 fn _unused(_: Bls12_381) {}
+
+/// Under the LIBRARY's own setup (the trapdoor harness cannot see how `setup` samples its secret point): a
+/// polynomial that agrees with `p` wherever two coordinates coincide, `p' = p + c·(x_i − x_j)`, is a different
+/// polynomial — its commitment must differ from `p`'s, and the library's proof for `p'` must not verify the value
+/// `p'(z)` against the commitment of `p`.
+fn real_setup_foreign_polynomial(ctx: &mut Ctx, prop: &str) {
+    use ark_poly::{DenseMultilinearExtension, MultilinearExtension, Polynomial};
+    for i in 0..ctx.n(4, 16) {
+        let id = format!("{}/mlpc-real-setup-foreign-polynomial/{}", prop, i);
+        if !ctx.selected(&id) {
+            continue;
+        }
+        let mut rng = rng_for(ctx.seed, "mlpc-real-setup-foreign-polynomial", i as u64);
+        let nv = 2 + i % 4;
+        let r = guarded(|| -> Result<(bool, bool), String> {
+            let pp = ML::setup(nv, &mut rng);
+            let (ck, vk) = ML::trim(&pp, nv);
+            let evals: Vec<Fr> = (0..1usize << nv).map(|_| Fr::rand(&mut rng)).collect();
+            let (a, b) = (i % nv, (i + 1) % nv);
+            let c = rand_nonzero(&mut rng);
+            // x_a − x_b on the hypercube (little-endian variable order of `DenseMultilinearExtension`)
+            let evals2: Vec<Fr> = evals.iter().enumerate().map(|(x, e)| {
+                let (xa, xb) = ((x >> a) & 1, (x >> b) & 1);
+                *e + c * (Fr::from(xa as u64) - Fr::from(xb as u64))
+            }).collect();
+            let p = DenseMultilinearExtension::from_evaluations_vec(nv, evals);
+            let p2 = DenseMultilinearExtension::from_evaluations_vec(nv, evals2);
+            let (cp, cp2) = (ML::commit(&ck, &p), ML::commit(&ck, &p2));
+            let z: Vec<Fr> = (0..nv).map(|_| Fr::rand(&mut rng)).collect();
+            let v2 = p2.evaluate(&z);
+            if v2 == p.evaluate(&z) {
+                return Err("degenerate point".into());
+            }
+            let pf2 = ML::open(&ck, &p2, &z);
+            Ok((cp.g_product == cp2.g_product, ML::check(&vk, &cp, &z, v2, &pf2)))
+        });
+        match r {
+            Ok(Ok((same, accepted))) => {
+                if same || accepted {
+                    ctx.rep.expect_fail(&id, "mlpc/real-setup-not-binding/foreign-polynomial",
+                        &format!("under the library's own setup, p and p + c(x_a - x_b) {}{}", if same { "have the SAME commitment" } else { "" }, if accepted { "; the library's proof for the other polynomial verified a false value against p's commitment" } else { "" }),
+                        format!("# scheme: mlpc\n# case: {}\n# seed: {}\n# nv={}\n# rerun: .build/cargo/debug/pcv-harness {} --seed {} --only {}\n", id, ctx.seed, nv, prop, ctx.seed, id));
+                }
+                ctx.rep.case(&format!("mlpc real setup nv={} foreign polynomial: same commitment {} accepted {}", nv, same, accepted), Some(format!("mlpc-real-foreign/{}", nv)));
+            }
+            Ok(Err(e)) | Err(e) => ctx.rep.notes.push(format!("{}: not run ({})", id, e.chars().take(60).collect::<String>())),
+        }
+    }
+}
